@@ -1,5 +1,5 @@
 CONSTANTS
-  MaxLen = 13
+  MaxLen = 16
   UseChans = {1, 2}
   Emit = FALSE
   CloseAfter = 0
